@@ -41,7 +41,7 @@ CHECKS = {
           "Evidence, not proof: histories are sampled; only fault *positions* are enumerated per sampled history.", "DESIGN.md section 2"),
    note="Trusted: the SimSocket stub (validated against real loopback sockets by `./check selftest fidelity`; socket API it does not model "
         "is a HARNESS-ERROR, never a violation), the reference model (50 lines), single-threaded use, call-backs that do not mutate the rule "
-        "tables. Not covered: serial/ROS/OPC bridges, send-side errors, time-out 0, exhaustive depth-5 enumeration (a model-checking clause; "
+        "tables; every `time` name the interfaces modules hold is the simulator's clock (seeded change c19u). Not covered: serial/ROS/OPC bridges, send-side errors, time-out 0, exhaustive depth-5 enumeration (a model-checking clause; "
         "this family samples). Sensitivity: own mutants, 19 independently seeded changes and 27 reviewer-written variants "
         "(`./check selftest mutants|seeded|variants C19`).",
    technique="deterministic simulation: virtual-clock UDP network + seeded history/fault search + per-step refinement against a reference model"),
@@ -56,7 +56,7 @@ CHECKS = {
           "compared at every call with an independent evaluation of the documented distance mode.",
           "DESIGN.md section 3"),
    note="Trusted: rtree/libspatialindex as a real component (its tie order is accepted, not predicted), the brute-force reference, float "
-        "tolerance 1e-9 on cost sums. No clock, network, disk or crash exists in this component and none is claimed.",
+        "tolerance 1e-9 on cost sums. No network, disk or crash exists in this component and none is claimed; the unchanged planner reads no clock, but the `time` names it can reach are the simulator's and the call-backs cost simulated time (slow collision checker), so a change that makes the tree depend on elapsed time is decided (mutant c16-planning-time-budget).",
    technique="deterministic simulation: simulator-owned PRNG (scripted draw schedule) + call-back seam monitors + history replay against a brute-force reference"),
  "C07": dict(
    level=("exploration",
